@@ -7,6 +7,9 @@ import sys
 
 sys.path.insert(0, os.path.dirname(os.path.abspath(__file__)))
 sys.dont_write_bytecode = True
+# one simulated run per worker process: numerical libraries must not start thread pools of their own
+for _v in ("OMP_NUM_THREADS", "OPENBLAS_NUM_THREADS", "MKL_NUM_THREADS", "NUMEXPR_NUM_THREADS"):
+    os.environ.setdefault(_v, "1")
 if os.environ.get("VERIF_REPO_SRC"):
     # sensitivity runs only (tools/mutants.py): import classy_blocks from a scratch copy.
     # Registered commands never set this; they use /repo/src through the editable install.
